@@ -31,6 +31,11 @@ def schemas_of(root: str, pkg: Pkg, files: dict, home: str):
     p = cli.run_cli("generate", os.path.join(root, pkg.dir), home)
     if p.rc != 0:
         return None, p
+    return read_schemas(root), p
+
+
+def read_schemas(root: str):
+    """the schema literals embedded in the generated C++, Python and MATLAB code under root/out"""
     out = {}
     cc = open(os.path.join(root, "out/cpp/protocols.cc")).read()
     pydir = os.path.join(root, "out/python")
@@ -50,7 +55,7 @@ def schemas_of(root: str, pkg: Pkg, files: dict, home: str):
         m = re.search(r"function res = schema\(\)\s*\n\s*res = string\('(.*)'\);", text)
         if m:
             out.setdefault(name, {})["matlab"] = m.group(1).replace("''", "'")
-    return out, p
+    return out
 
 
 def files_for(pkg: Pkg, style=None, layout=None):
@@ -313,6 +318,49 @@ def text_scenarios(ctx, home):
         shutil.rmtree(root, ignore_errors=True)
 
 
+def watch_session(ctx, key, info, pkg, p2, wroot, want, home) -> bool:
+    """starts the watcher on the base model, saves the edited model files, waits for event quiescence and compares the embedded schemas
+    with those of a one-shot generation of the edited model (`want`)."""
+    from props import C20
+    shutil.rmtree(wroot, ignore_errors=True)
+    f0, f1 = files_for(pkg), files_for(p2)
+    common.write_tree(wroot, f0)
+    os.makedirs(os.path.join(wroot, "home"), exist_ok=True)
+    w = C20.Watcher(wroot, os.path.join(wroot, "home"), common.build_yardl(), pkgdir=pkg.dir)
+    try:
+        if not w.wait_quiescent(1, limit_s=30):
+            if not w.alive():
+                ctx.violation("watcher-died:startup", "%s: watcher exited during the initial generation" % key, {"case_dir": wroot})
+                return False
+            raise Inconclusive("%s: initial generation in watch mode did not finish within 30 s wall" % key)
+        starts = w.counts()[0]
+        changed = [rel for rel, text in f1.items() if f0.get(rel) != text]
+        for rel in changed:
+            with open(os.path.join(wroot, rel), "w") as f:
+                f.write(f1[rel])
+        ok = w.wait_quiescent(starts + 1, limit_s=25)
+        ctx.ev()
+        ctx.count("watch-sessions")
+        if not ok:
+            if not w.alive():
+                ctx.violation("watcher-died", "%s: the watcher exited after the edit '%s' was saved" % (key, info["name"]), {"case_dir": wroot})
+                return False
+            raise Inconclusive("%s: watcher not quiescent within 25 s wall after the edit" % key)
+        have = read_schemas(wroot)
+        good = True
+        for pn, langs in want.items():
+            ctx.case((key, "watch", info["name"], pn))
+            for lang, text in langs.items():
+                if have.get(pn, {}).get(lang) != text:
+                    ctx.violation("watch-schema-stale:%s" % lang, "%s/%s: edit '%s' saved while `generate --watch` runs: the regenerated %s code embeds a schema that differs from a one-shot generation of the same model" % (key, pn, info["name"], lang),
+                                  {"case_dir": wroot, "edit": repr(info), "files_saved": changed})
+                    good = False
+                    break
+        return good
+    finally:
+        w.stop()
+
+
 def run(ctx):
     common.build_yardl()
     quick = ctx.tier == "quick"
@@ -398,6 +446,7 @@ def run(ctx):
             vg = values.ValueGen(cbase, rng("C04pool", key, pn), json_safe=True)
             pools[pn] = [vg.steps(pkg.find(pn)) for _ in range(8)]
         enc0 = {pn: encodings(pkg, pn, pools[pn]) for pn in protos}
+        watch_budget = [2 if quick else 6]
         for e in CANDIDATES:
             for rep in range(reps):
                 rr = rng("C04e", key, e.__name__, rep)
@@ -427,6 +476,15 @@ def run(ctx):
                         ctx.violation("encoding-changed-schema-same:%s" % info["name"], "%s/%s: edit '%s' at %s changes how pool values are encoded but the schema text is unchanged" % (key, pn, info["name"], info.get("where")),
                                       {"case_dir": root, "base_dir": root0, "edit": repr(info)})
                         ok = False
+                any_affecting = any(s2.get(pn, {}).get("cpp") != base_s[pn]["cpp"] for pn in protos if pn in s2)
+                if ok and any_affecting and watch_budget[0] > 0:
+                    # the same edit saved while `yardl generate --watch` is running on the base model: the regenerated code must carry the schema of the edited model
+                    watch_budget[0] -= 1
+                    wroot = os.path.join(ctx.workdir, "cases", key, "watch_%s_%d" % (e.__name__, rep))
+                    if not watch_session(ctx, key, info, pkg, p2, wroot, s2, home):
+                        ok = False
+                    else:
+                        shutil.rmtree(wroot, ignore_errors=True)
                 if ok:
                     shutil.rmtree(root, ignore_errors=True)
         shutil.rmtree(root0, ignore_errors=True)
